@@ -201,19 +201,28 @@ theorem updateRange_keys (env : Env α) {s s' : State α} (a b : α) (hk : KeysI
 /-- new pending list of `tell_pending(p)` -/
 def addPending (l : List Pt) (p : Pt) : List Pt := if l.contains p then l else l ++ [p]
 
-/-- shape of `tell_pending`: outside the domain nothing happens; inside, the point becomes pending, the
-triangulation is touched and only the sub-triangulation book changes (by the loop over the neighbours) -/
+/-- shape of `tell_pending`: for a point that already has a value (fix: LearnerND.tell_pending marked an
+already evaluated point as pending) or lies outside the domain nothing happens; otherwise the point becomes
+pending, the triangulation is touched and only the sub-triangulation book changes (by the loop over the
+neighbours) -/
 theorem tellPending_form (env : Env α) {s s' : State α} (p : Pt) (hint : Option Simplex)
     (h : tellPending env s p hint = .ok s') :
-    (env.inside p = false ∧ s' = s) ∨
-    (env.inside p = true ∧ ∃ s1 b, touchTri env { s with pending := addPending s.pending p } = .ok s1 ∧
+    ((s.data.contains p = true ∨ env.inside p = false) ∧ s' = s) ∨
+    ((s.data.contains p = false ∧ env.inside p = true) ∧
+      ∃ s1 b, touchTri env { s with pending := addPending s.pending p } = .ok s1 ∧
       s' = { s1 with book := b } ∧
       (b = s1.book ∨ ∃ vs sx, s1.tri = some vs ∧
         pendLoop env vs s1.losses p s1.book (neighborsOf (env.triSimps vs.length) sx) = .ok b)) := by
   unfold tellPending at h
+  by_cases hd : s.data.contains p = true
+  · left
+    simp only [hd, if_true, Except.ok.injEq] at h
+    exact ⟨Or.inl hd, h.symm⟩
+  simp only [Bool.not_eq_true] at hd
+  simp only [hd, Bool.false_eq_true, if_false] at h
   by_cases hin : env.inside p = true
   · right
-    refine ⟨hin, ?_⟩
+    refine ⟨⟨hd, hin⟩, ?_⟩
     simp only [hin, Bool.not_true, Bool.false_eq_true, if_false] at h
     split at h
     · exact absurd h (by simp)
@@ -232,17 +241,26 @@ theorem tellPending_form (env : Env α) {s s' : State α} (p : Pt) (hint : Optio
   · left
     simp only [Bool.not_eq_true] at hin
     simp only [hin, Bool.not_false, if_true, Except.ok.injEq] at h
-    exact ⟨hin, h.symm⟩
+    exact ⟨Or.inr hin, h.symm⟩
+
+/-- `tell_pending` of a point that already has a value changes nothing -/
+theorem tellPending_known (env : Env α) (s : State α) (p : Pt) (hint : Option Simplex)
+    (h : s.data.contains p = true) : tellPending env s p hint = .ok s := by
+  unfold tellPending; rw [if_pos h]
 
 theorem tellPending_frame (env : Env α) {s s' : State α} (p : Pt) (hint : Option Simplex)
     (h : tellPending env s p hint = .ok s') :
     s'.data = s.data ∧ s'.nrand = s.nrand ∧ s'.range = s.range ∧ s'.mult = s.mult ∧
-      s'.pending = (if env.inside p then addPending s.pending p else s.pending) ∧
+      s'.pending = (if (!s.data.contains p && env.inside p) then addPending s.pending p else s.pending) ∧
       (s'.tri = s.tri ∨ (s.tri = none ∧ s'.tri = some s.data)) := by
-  rcases tellPending_form env p hint h with ⟨hin, rfl⟩ | ⟨hin, s1, b, h1, rfl, _⟩
-  · exact ⟨rfl, rfl, rfl, rfl, by simp [hin], Or.inl rfl⟩
+  rcases tellPending_form env p hint h with ⟨hin, rfl⟩ | ⟨⟨hd, hin⟩, s1, b, h1, rfl, _⟩
+  · refine ⟨rfl, rfl, rfl, rfl, ?_, Or.inl rfl⟩
+    rcases hin with hin | hin <;> simp only [hin, Bool.not_true, Bool.false_and, Bool.and_false,
+      Bool.false_eq_true, if_false]
   · obtain ⟨a1, a2, a3, a4, a5, a6⟩ := touchTri_frame env h1
-    exact ⟨a1, a5, a3, a4, by simp [hin, a2], a6⟩
+    refine ⟨a1, a5, a3, a4, ?_, a6⟩
+    simp only [hin, hd, Bool.not_false, Bool.and_self, if_true]
+    exact a2
 
 theorem tellPending_keys (env : Env α) {s s' : State α} (p : Pt) (hint : Option Simplex)
     (hk : KeysInv env s) (h : tellPending env s p hint = .ok s') : KeysInv env s' := by
